@@ -30,14 +30,38 @@ func solverList() []solverSpec {
 
 // smtGround: the query with triggered quantifiers instantiated by the engine and
 // every quantified assumption dropped ("" when the query has no triggered quantifier).
-func (fv *FuncVer) smtGround(q *Query) string {
+// extGround: the extended instantiation heuristics are on (goal-directed instances at the goal's
+// Skolem constants and their neighbours, index matching modulo linear arithmetic, negative
+// universals named, conjunctions split, a second pass after witness expansion). The classic text
+// is always raced beside the extended one: the extended text can be much larger.
+var extGround bool
+
+func (fv *FuncVer) smtGround(q *Query, ext bool) string {
+	extGround = ext
+	defer func() { extGround = false }()
 	// existentials in positive positions of the assumptions get named witnesses (Skolem
 	// functions of the enclosing universal variables): validity-preserving, and it lets the
 	// engine offer those witnesses to an existential goal
-	assumptions := make([]*Term, len(q.Assumptions))
-	for i, a := range q.Assumptions {
+	// conjunctions are split first: a quantified conjunct (e.g. the hypothesis of a goal that was an
+	// implication) must be a formula of its own to be instantiated
+	var flat []*Term
+	var flatten func(a *Term)
+	flatten = func(a *Term) {
+		if ext && a.Op == "and" && a.Q == nil && hasQuant(a) {
+			for _, x := range a.Args {
+				flatten(x)
+			}
+			return
+		}
+		flat = append(flat, a)
+	}
+	for _, a := range q.Assumptions {
+		flatten(a)
+	}
+	assumptions := make([]*Term, len(flat))
+	for i, a := range flat {
 		assumptions[i] = a
-		if hasExists(a) {
+		if (ext && hasQuant(a)) || hasExists(a) {
 			assumptions[i] = fv.skolemEx(a, nil, fmt.Sprintf("w%d", i))
 		}
 	}
@@ -69,6 +93,26 @@ func (fv *FuncVer) smtGround(q *Query) string {
 		// witnesses found among the ground terms (a stronger goal: proving it proves the original)
 		pool := groundSubterms(append(append([]*Term{}, as...), goal))
 		goal = witnessGoal(goal, pool)
+		// the candidate witnesses are new ground terms (an element read at witness - 1): one
+		// more instantiation pass with them in view
+		have := map[string]bool{}
+		for _, a := range as {
+			have[a.String()] = true
+		}
+		var more []*Term
+		if ext {
+			more = instantiate(assumptions, goal, 2, 600)
+		}
+		for _, a := range more {
+			a = dischargeAntecedents(a, univ)
+			if hasQuant(a) {
+				continue
+			}
+			if k := a.String(); !have[k] {
+				have[k] = true
+				as = append(as, a)
+			}
+		}
 	}
 	return fv.smtText(&Query{Assumptions: as, Goal: goal}, true)
 }
@@ -251,10 +295,43 @@ func (fv *FuncVer) skolemEx(t *Term, univ []*Term, tag string) *Term {
 		return And(args...)
 	case t.Op == "=>" && len(t.Args) == 2:
 		nb := fv.skolemEx(t.Args[1], univ, tag+"c")
-		if nb == t.Args[1] {
+		na := t.Args[0]
+		if extGround {
+			na = fv.skolemNeg(t.Args[0], univ, tag+"a")
+		}
+		if nb == t.Args[1] && na == t.Args[0] {
 			return t
 		}
-		return Implies(t.Args[0], nb)
+		return Implies(na, nb)
+	}
+	return t
+}
+
+// skolemNeg: universal quantifiers in negative positions (conjuncts / disjuncts of an
+// antecedent) are existentials of the whole formula: (forall k. P(k)) ==> Q is
+// exists k. (P(k) ==> Q). They get Skolem terms like the positive existentials.
+func (fv *FuncVer) skolemNeg(t *Term, univ []*Term, tag string) *Term {
+	switch {
+	case t.Q != nil && t.Q.Forall:
+		bind := map[*Term]*Term{}
+		for i, v := range t.Q.Vars {
+			bind[v] = fv.ctx.Func(fmt.Sprintf("sk_%s_%s_%d_%d", tag, v.Op, len(univ), i), v.Sort, univ...)
+		}
+		return fv.skolemNeg(substTerm(t.Q.Body, bind, map[*Term]*Term{}), univ, tag+"x")
+	case t.Op == "and" || t.Op == "or":
+		args := make([]*Term, len(t.Args))
+		changed := false
+		for i, a := range t.Args {
+			args[i] = fv.skolemNeg(a, univ, fmt.Sprintf("%s_%d", tag, i))
+			changed = changed || args[i] != a
+		}
+		if !changed {
+			return t
+		}
+		if t.Op == "and" {
+			return And(args...)
+		}
+		return Or(args...)
 	}
 	return t
 }
@@ -288,7 +365,7 @@ func witnessGoal(g *Term, pool []*Term) *Term {
 		if len(g.Q.Vars) == 1 && g.Q.Vars[0].Sort == SInt {
 			v := g.Q.Vars[0]
 			for _, gt := range pool {
-				if gt.Sort != SInt || len(alts) >= 40 {
+				if gt.Sort != SInt || (!extGround && len(alts) >= 40) || len(alts) >= 60 {
 					continue
 				}
 				ok := strings.HasPrefix(gt.Op, "sk_") || gt.Op == "sl-len" || strings.HasPrefix(gt.Op, "r_t") || strings.HasPrefix(gt.Op, "lv_")
@@ -298,13 +375,20 @@ func witnessGoal(g *Term, pool []*Term) *Term {
 				if !ok {
 					continue
 				}
-				inst := substTerm(g.Q.Body, map[*Term]*Term{v: gt}, map[*Term]*Term{})
-				k := inst.String()
-				if seen[k] {
-					continue
+				cands := []*Term{gt}
+				if extGround && strings.HasPrefix(gt.Op, "sk_") {
+					// ... and the positions next to a named witness (an element moved by one)
+					cands = append(cands, ISub(gt, IntLit(1)), IAdd(gt, IntLit(1)))
 				}
-				seen[k] = true
-				alts = append(alts, witnessGoal(inst, pool))
+				for _, w := range cands {
+					inst := substTerm(g.Q.Body, map[*Term]*Term{v: w}, map[*Term]*Term{})
+					k := inst.String()
+					if seen[k] {
+						continue
+					}
+					seen[k] = true
+					alts = append(alts, witnessGoal(inst, pool))
+				}
 			}
 		}
 		if len(alts) == 0 {
@@ -462,7 +546,13 @@ func runSolver(ctx context.Context, sp solverSpec, text string, timeout time.Dur
 // thorough = all solvers, disagreement is an engine error.
 // solve2: like solve, with an additional ground variant of the same query.
 // `unsat` of either variant discharges the query; `sat` is only believed for the full text.
-func solve2(text, ground string, timeout time.Duration, thorough bool) solveResult {
+func solve2(text, ground, groundExt string, timeout time.Duration, thorough bool) solveResult {
+	if ground == "" && groundExt != "" {
+		ground, groundExt = groundExt, ""
+	}
+	if groundExt == ground {
+		groundExt = ""
+	}
 	if ground == "" {
 		return solve(text, timeout, thorough)
 	}
@@ -474,7 +564,7 @@ func solve2(text, ground string, timeout time.Duration, thorough bool) solveResu
 	sps := solverList()
 	ctx, cancel := context.WithCancel(context.Background())
 	defer cancel()
-	ch := make(chan one, 8)
+	ch := make(chan one, 12)
 	n := 0
 	launch := func(sp solverSpec, t string, full bool, tag string) {
 		n++
@@ -483,14 +573,25 @@ func solve2(text, ground string, timeout time.Duration, thorough bool) solveResu
 			ch <- one{sp.name + tag, r, m, ms, full}
 		}()
 	}
-	launch(sps[0], text, true, "")
-	launch(sps[0], ground, false, "+inst")
-	launch(sps[len(sps)-1], ground, false, "+inst")
-	// the two z3 generations differ widely on quantified goals: always race both
-	launch(sps[2], text, true, "")
-	launch(sps[1], text, true, "")
-	if thorough {
-		launch(sps[len(sps)-1], text, true, "")
+	if text == "" {
+		// only an instantiated text (second attempt with the extended heuristics)
+		launch(sps[0], ground, false, "+instx")
+		launch(sps[len(sps)-1], ground, false, "+instx")
+		launch(sps[2], ground, false, "+instx")
+	} else {
+		launch(sps[0], text, true, "")
+		launch(sps[0], ground, false, "+inst")
+		launch(sps[len(sps)-1], ground, false, "+inst")
+		if groundExt != "" {
+			launch(sps[0], groundExt, false, "+instx")
+			launch(sps[len(sps)-1], groundExt, false, "+instx")
+		}
+		// the two z3 generations differ widely on quantified goals: always race both
+		launch(sps[2], text, true, "")
+		launch(sps[1], text, true, "")
+		if thorough {
+			launch(sps[len(sps)-1], text, true, "")
+		}
 	}
 	res := solveResult{result: "unknown", all: map[string]string{}}
 	for i := 0; i < n; i++ {
